@@ -6,6 +6,7 @@ value accepted by the declared field) as rows stream by; at the end results() wi
 validating policy must not raise and datapackage.Package(descriptor).valid must hold.
 """
 import copy
+import os
 import datetime
 import decimal
 
@@ -243,10 +244,15 @@ def run_case(case):
             rows1 = typed_table(rng, [('v', 'integer')], 4)
             rows2 = typed_table(rng, [('v', 'integer')], 3)
             fl = [{'name': 'id', 'type': 'integer'}, {'name': 'v', 'type': 'integer'}]
-            first = rng.choice(['add_field', 'add_computed_dict', 'add_computed_name', 'set_type_all', 'update_schema'])
+            first = rng.choice(['add_field', 'add_computed_dict', 'add_computed_name', 'set_type_all', 'update_schema',
+                                'unpivot_all', 'unpivot_all', 'add_field_options'])
             second = rng.choice(['set_type', 'rename_fields', 'delete_fields'])
             tgt = rng.choice(['r1', 'r2'])
             newf = 'd' if first.startswith('add') else 'v'
+            if first == 'unpivot_all':
+                newf = rng.choice(['val', 'k'])
+                if newf == 'k' and second == 'set_type':
+                    second = 'rename_fields'
 
             def s1():
                 return {'add_field': lambda: d.add_field('d', 'integer', 5),
@@ -254,6 +260,9 @@ def run_case(case):
                             [{'target': {'name': 'd', 'type': 'integer'}, 'operation': 'sum', 'source': ['v', 'id']}]),
                         'add_computed_name': lambda: d.add_computed_field(
                             [{'target': 'd', 'operation': 'sum', 'source': ['v', 'id']}]),
+                        'unpivot_all': lambda: d.unpivot([{'name': 'v', 'keys': {'k': 'V'}}], [{'name': 'k', 'type': 'string'}],
+                                                         {'name': 'val', 'type': 'integer'}, regex=False, resources=None),
+                        'add_field_options': lambda: d.add_field('d', 'integer', 5, title='T', constraints={'minimum': 0}),
                         'set_type_all': lambda: d.set_type('v', type='number', resources=None),
                         'update_schema': lambda: d.update_schema(None, missingValues=['', 'NA'])}[first]()
 
@@ -296,6 +305,32 @@ def run_case(case):
         mk = lambda e: [((dict(r) for r in rows) if gen_form else [dict(r) for r in rows])]   # noqa: E731
         label = 'iterable/' + '+'.join(fl) + ('/mixed' if mixed else '')
         prog = {'iterable_types': fl, 'rows': n, 'mixed': mixed}
+    elif rng.random() < 0.5:
+        # autoname: several sources whose automatic names coincide (files with the same base name in different
+        # directories; sources(...) of several iterables, also after earlier resources) - with DIFFERENT schemas
+        variant = rng.choice(['load_same_basename', 'load_same_file_twice', 'sources_iterables', 'sources_after_iterables',
+                              'sources_mixed'])
+        its = [[{'id': i, 'v%d' % j: 'x' * (j + 1)} for i in range(2 + j)] for j in range(4)]
+
+        def csv_at(dirname, j):
+            os.makedirs(dirname, exist_ok=True)
+            path = os.path.join(dirname, 'data.csv')
+            with open(path, 'w') as f:
+                f.write('id,w%d\n' % j + ''.join('%d,%s\n' % (i, 'abc'[j % 3]) for i in range(3 + j)))
+            return path
+        if variant == 'load_same_basename':
+            mk = lambda e: [d.load(csv_at('y2019', 0)), d.load(csv_at('y2020', 1)), d.validate()]   # noqa: E731
+        elif variant == 'load_same_file_twice':
+            mk = lambda e: [d.load(csv_at('y2019', 0)), d.load(csv_at('y2019', 0)), d.validate()]   # noqa: E731
+        elif variant == 'sources_iterables':
+            mk = lambda e: [d.sources(*copy.deepcopy(its[:3])), d.validate()]                       # noqa: E731
+        elif variant == 'sources_after_iterables':
+            mk = lambda e: copy.deepcopy(its[:2]) + [d.sources(*copy.deepcopy(its[2:])), d.validate()]   # noqa: E731
+        else:
+            mk = lambda e: [copy.deepcopy(its[0]), d.sources(copy.deepcopy(its[1]), d.load(csv_at('y2019', 0)),  # noqa
+                                                            copy.deepcopy(its[2])), d.validate()]
+        label = 'autoname/' + variant
+        prog = {'variant': variant}
     else:   # autoname: iterables appended after deletions / renames
         k = rng.choice([2, 3])
         its = [[{'id': i, 'v': j} for i in range(2)] for j in range(k + 1)]
